@@ -5,6 +5,7 @@ package jsonata
 
 import (
 	"reflect"
+	"time"
 	"unsafe"
 )
 
@@ -24,3 +25,6 @@ func vmap(m map[string]reflect.Value) unsafe.Pointer { return nil }
 
 // vpoint is a no-op without the verif build tag.
 func vpoint(kind uint8, loc unsafe.Pointer) {}
+
+// vclock reports no harness clock without the verif build tag.
+func vclock() (time.Time, bool) { return time.Time{}, false }
